@@ -510,4 +510,193 @@ Proof.
       split; [reflexivity|]. split; [eapply ready_peek; eauto | exact Ht].
 Qed.
 
+
+(* ------------------------------------------------------------------ ANIM ANMF+ *)
+Notation anim_part' := (anim_part inp lossless allow).
+Notation ext_seq' := (ext_seq inp lossless allow).
+
+Lemma animated_complete fuel x a fr p o stop cs rest : ready a fr p o stop -> tiles' o stop cs ->
+  anim_part' (has (x_flags x) F_ALPH) cs = Some rest -> fuel_ok fuel o stop -> more inp fr stop = false ->
+  exists a' p' o', exec' (sanitize_animated lossless allow fuel x (L a fr p)) p = (Ok (L a' fr p'), p')
+    /\ ready a' fr p' o' stop /\ tiles' o' stop rest.
+Proof.
+  intros Hr Ht Han Hfu Hm. pose proof Hr as [Hl Hb Hp Ho Hle Hf Hs].
+  unfold anim_part in Han. destruct cs as [|c0 r]; [discriminate|].
+  destruct (geq (w_name c0) gANIM && (w_len c0 =? 6)) eqn:E0; [|discriminate].
+  apply andb_prop in E0. destruct E0 as [En0 El0]. apply geq_true in En0.
+  destruct r as [|f0 r']; [discriminate|]. destruct (geq (w_name f0) gANMF) eqn:Ef0; [|discriminate].
+  destruct (tiles_cfacts fr o stop c0 _ Ht Hf Hs) as (-> & Hh & Hbo & Hes & Ht1).
+  rewrite wlen_chunk_at in El0. set (h := hdr_at' o) in *. set (e := o + 8 + ch_len h) in *.
+  destruct (body_ok_fits h e fr e Hbo ltac:(lia)) as [Hfe Hie].
+  unfold sanitize_animated.
+  rewrite exec_bind, (read_header_go ANIM a fr p Hl Hp Hb); rewrite ?Ho; auto. cbn [ebind].
+  unfold in_hdr. fold h e.
+  rewrite exec_bind, (read_data_go 6 h e fr (o + 8) ltac:(lia)); auto; try lia.
+  2:{ apply (linv_in_hdr inp o fr (proj1 Hh)). }
+  2:{ replace (o + 8 + 6) with e by lia. exact Hfe. }
+  cbn [ebind]. change (N.to_nat 6) with 6%nat.
+  destruct (parse_anim_ok inp (o + 8)) as (v & Ev). rewrite exec_bind, exec_lift, Ev. cbn [ebind].
+  replace (o + 8 + 6) with e by lia.
+  assert (Hr1 : ready (AIn h e) fr e (e + pad_of h) stop).
+  { apply (done_ready h e (AIn h e) e fr stop); auto; [left; auto | split; [exact Hfe | cbn [ainv]; lia]]. }
+  pose proof Hr1 as [Hl1 Hb1 Hp1 Ho1 _ _ _].
+  destruct (tiles_cfacts fr _ stop f0 r' Ht1 Hf Hs) as (Ef & Hh1 & _).
+  rewrite exec_bind, (peek_header_go_some _ fr e Hl1 Hp1 Hb1); rewrite ?Ho1; auto. cbn [ebind].
+  rewrite <- wname_chunk_at, <- Ef. change (teq (w_name f0) ANMF) with (geq (w_name f0) gANMF). rewrite Ef0.
+  eapply frames_complete; [eapply ready_peek; eauto | exact Ht1 | exact Han | | exact Hm].
+  eapply fuel_weaken; [exact Hfu | lia | lia].
+Qed.
+
+(* ------------------------------------------------------------------ an optional named chunk *)
+Lemma opt_named_complete (flag : bool) name a fr p o stop cs rest : ready a fr p o stop -> tiles' o stop cs ->
+  opt_chunk flag name cs = Some rest ->
+  exists a' p' o', exec' (if flag then skip_named name (L a fr p) else Ret (Ok (L a fr p))) p = (Ok (L a' fr p'), p')
+    /\ ready a' fr p' o' stop /\ tiles' o' stop rest /\ o <= o'.
+Proof.
+  intros Hr Ht Hopt. unfold opt_chunk in Hopt. destruct flag.
+  - destruct cs as [|c r]; [discriminate|]. destruct (geq (w_name c) name) eqn:En; [|discriminate].
+    injection Hopt as <-. apply geq_true in En.
+    destruct (skip_named_complete name a fr p o stop c r Hr Ht En) as (a' & p' & E & Hr').
+    destruct Hr as [_ _ _ _ _ Hf Hs].
+    destruct (tiles_cfacts fr o stop c r Ht Hf Hs) as (-> & _ & _ & _ & Ht').
+    exists a', p', (cend (chunk_at' o) + wpad (w_len (chunk_at' o))). split; [exact E|]. split; [exact Hr'|].
+    rewrite cend_chunk_at, wlen_chunk_at, <- pad_of_wpad. split; [exact Ht' | lia].
+  - injection Hopt as <-. rewrite exec_ret. exists a, p, o. split; [reflexivity|]. split; [exact Hr|]. split; [exact Ht | lia].
+Qed.
+
+(* ------------------------------------------------------------------ after VP8X *)
+Lemma extended_complete fuel x a fr p o stop cs rest : ready a fr p o stop -> tiles' o stop cs ->
+  ext_seq' (has (x_flags x) F_ICCP) (has (x_flags x) F_ALPH) (has (x_flags x) F_EXIF) (has (x_flags x) F_XMP)
+           (has (x_flags x) F_ANIM) (x_w x) (x_h x) cs = Some rest ->
+  fuel_ok fuel o stop -> more inp fr stop = false ->
+  exists a' p' o', exec' (sanitize_extended lossless allow fuel x (L a fr p)) p = (Ok (L a' fr p'), p')
+    /\ ready a' fr p' o' stop /\ tiles' o' stop rest.
+Proof.
+  intros Hr Ht Hseq Hfu Hm. unfold ext_seq in Hseq. unfold sanitize_extended.
+  destruct (opt_chunk (has (x_flags x) F_ICCP) gICCP cs) as [cs1|] eqn:E1; [|discriminate].
+  destruct (opt_named_complete _ ICCP a fr p o stop cs cs1 Hr Ht E1) as (a1 & p1 & o1 & X1 & Hr1 & Ht1 & Hle1).
+  rewrite exec_bind, X1. cbn [ebind].
+  match type of Hseq with match ?Y with _ => _ end = _ => destruct Y as [cs2|] eqn:E2; [|discriminate] end.
+  assert (K : exists a2 p2 o2,
+            exec' (if has (x_flags x) F_ANIM then sanitize_animated lossless allow fuel x (L a1 fr p1)
+                   else sanitize_still lossless x (L a1 fr p1)) p1 = (Ok (L a2 fr p2), p2)
+            /\ ready a2 fr p2 o2 stop /\ tiles' o2 stop cs2).
+  { destruct (has (x_flags x) F_ANIM).
+    - eapply animated_complete; eauto. eapply fuel_weaken; [exact Hfu | lia | lia].
+    - eapply still_complete; eauto. }
+  destruct K as (a2 & p2 & o2 & X2 & Hr2 & Ht2). rewrite exec_bind, X2. cbn [ebind].
+  destruct (opt_chunk (has (x_flags x) F_EXIF) gEXIF cs2) as [cs3|] eqn:E3; [|discriminate].
+  destruct (opt_named_complete _ EXIF a2 fr p2 o2 stop cs2 cs3 Hr2 Ht2 E3) as (a3 & p3 & o3 & X3 & Hr3 & Ht3 & _).
+  rewrite exec_bind, X3. cbn [ebind].
+  destruct (opt_named_complete _ XMP a3 fr p3 o3 stop cs3 rest Hr3 Ht3 Hseq) as (a4 & p4 & o4 & X4 & Hr4 & Ht4 & _).
+  exists a4, p4, o4. auto.
+Qed.
+
+(* ------------------------------------------------------------------ the whole file *)
+Lemma webp_prog_complete fuel : webp_spec lok allow inp = true -> (N.to_nat (ilen inp / 8) < fuel)%nat ->
+  exists p', exec' (webp_prog lossless allow fuel) 0 = (Ok tt, p').
+Proof.
+  intros Hspec Hfuel. unfold webp_spec in Hspec. apply andb_prop in Hspec. destruct Hspec as [Hfr Hseq].
+  unfold framing_ok in Hfr. cbv zeta in Hfr.
+  repeat match goal with H : (_ && _) = true |- _ => apply andb_prop in H; destruct H end.
+  assert (Hriff : geq (get inp 0 4) gRIFF = true) by assumption.
+  assert (Hwebp : geq (get inp 8 4) gWEBP = true) by assumption.
+  assert (Hmax : (le inp 4 4 + 8 <=? 2 ^ 32 - 2) = true) by assumption.
+  assert (Hpadz : (if N.odd (le inp 4 4) then le inp (8 + le inp 4 4) 1 =? 0 else true) = true) by assumption.
+  assert (Hilen : (ilen inp =? 8 + le inp 4 4 + (if N.odd (le inp 4 4) then 1 else 0)) = true) by assumption.
+  assert (Hsize : (4 <=? le inp 4 4) = true) by assumption.
+  assert (H12 : (12 <=? ilen inp) = true) by assumption.
+  set (h := hdr_at' 0). set (e := 0 + 8 + ch_len h).
+  assert (Esize : le inp 4 4 = ch_len h) by (unfold h; rewrite hdr_len; reflexivity).
+  rewrite Esize in *.
+  assert (Ename : ch_name h = RIFF) by (unfold h; rewrite hdr_name; apply geq_true; exact Hriff).
+  assert (Ee : 8 + ch_len h = e) by (unfold e; lia). rewrite Ee in *.
+  destruct (region_chunks inp 12 e) as [cs|] eqn:Ereg; [|discriminate]. apply region_chunks_tiles in Ereg.
+  assert (Hile : ilen inp = e + pad_of h) by (unfold pad_of; lia).
+  assert (Hbo0 : body_ok h e []).
+  { split; [apply fits_nil|]. split; [lia|]. intros O. rewrite O in Hpadz. rewrite le1 in Hpadz.
+    apply b2n_zero. lia. }
+  unfold webp_prog. cbv zeta. change (Idle RIFF, @nil cstate) with (L (AIdle RIFF) [] 0).
+  assert (Hl0 : linv' (AIdle RIFF) [] 0) by (split; [apply fits_nil | exact I]).
+  assert (Hh0 : hdr_ok inp [] 0) by (split; [apply fits_nil | lia]).
+  rewrite exec_bind, (read_header_go RIFF _ [] 0 Hl0); cbn [loff npos]; auto; [|apply settled_padreq; exact I | exact I].
+  cbn [ebind]. unfold in_hdr. fold h e.
+  rewrite exec_bind, (read_data_go 4 h e [] (0 + 8) ltac:(lia)); try lia; try apply fits_nil.
+  2:{ split; [apply fits_nil | cbn [ainv]; lia]. }
+  cbn [ebind]. change (N.to_nat 4) with 4%nat.
+  rewrite exec_bind, exec_lift, parse_webp_spec. change (0 + 8) with 8. rewrite Hwebp. cbn [ebind].
+  replace (WEBP_MAX_FILE_LEN <? ch_len h + 8) with false
+    by (unfold WEBP_MAX_FILE_LEN; change (2 ^ 32 - 2) with 4294967294 in Hmax; lia).
+  rewrite child_L. set (fr1 := [(h, e)]). change (8 + 4) with 12.
+  assert (Hfe : fits fr1 e) by (apply fits_cons; split; [cbn [snd]; lia | apply fits_nil]).
+  assert (He : e <= ilen inp) by lia.
+  assert (Hm1 : more inp fr1 e = false) by apply more_top.
+  assert (Hr0 : ready (AIdle (ch_name h)) fr1 12 12 e).
+  { constructor; auto; try exact I; try reflexivity.
+    - split; [eapply fits_le; [exact Hfe | lia] | exact I].
+    - apply settled_padreq. exact I.
+    - apply (tiles_le _ _ _ _ Ereg). }
+  assert (Hfu0 : fuel_ok fuel 12 e).
+  { unfold fuel_ok. assert ((e - 12) / 8 <= ilen inp / 8) by (apply N.div_le_mono; lia). lia. }
+  (* the first chunk *)
+  unfold sequence_ok in Hseq. destruct cs as [|c r]; [discriminate|].
+  destruct (tiles_cfacts fr1 12 e c r Ereg Hfe He) as (-> & Hh1 & Hbo1 & Hes1 & Ht1).
+  pose proof Hr0 as [Hl1 Hb1 Hp1 _ _ _ _].
+  rewrite exec_bind, (read_any_header_go _ fr1 12 Hl1 Hp1 Hb1); cbn [loff npos]; auto. cbn [ebind].
+  set (h1 := hdr_at' 12) in *. set (e1 := 12 + 8 + ch_len h1) in *.
+  rewrite wname_chunk_at in Hseq. fold h1 in Hseq.
+  pose proof (linv_in_hdr inp 12 fr1 (proj1 Hh1)) as Hlh. unfold in_hdr in Hlh |- *. fold h1 e1 in Hlh |- *.
+  destruct names_distinct as (N1 & N2 & N3).
+  assert (K : exists a2 p2 o2 rest,
+            exec' (if teq (ch_name h1) VP8 then skip_data (L (AIn h1 e1) fr1 (12 + 8))
+                   else if teq (ch_name h1) VP8L then do_vp8l lossless None (L (AIn h1 e1) fr1 (12 + 8))
+                   else if teq (ch_name h1) VP8X then
+                     '(b, r2) <~ read_data 10 (L (AIn h1 e1) fr1 (12 + 8)) ;;
+                     x <~ lift (parse_vp8x b) ;; sanitize_extended lossless allow fuel x r2
+                   else Ret (EParse InvalidChunkLayout)) (12 + 8) = (Ok (L a2 fr1 p2), p2)
+            /\ ready a2 fr1 p2 o2 e /\ tiles' o2 e rest /\ tail_ok allow rest = true /\ 12 + 8 <= o2).
+  { change (geq (ch_name h1) gVP8) with (teq (ch_name h1) VP8) in Hseq.
+    change (geq (ch_name h1) gVP8L) with (teq (ch_name h1) VP8L) in Hseq.
+    change (geq (ch_name h1) gVP8X) with (teq (ch_name h1) VP8X) in Hseq.
+    destruct (teq (ch_name h1) VP8) eqn:E1; [|destruct (teq (ch_name h1) VP8L) eqn:E2;
+      [|destruct (teq (ch_name h1) VP8X) eqn:E3; [|discriminate]]].
+    - destruct (skip_data_go h1 e1 fr1 (12 + 8) Hlh Hbo1) as (a2 & p2 & X & Hl2 & Hd).
+      exists a2, p2, (e1 + pad_of h1), r. split; [exact X|]. split; [eapply done_ready; eauto|].
+      split; [exact Ht1|]. split; [exact Hseq | lia].
+    - apply andb_prop in Hseq. destruct Hseq as [Hv Hseq].
+      destruct (do_vp8l_complete None h1 e1 fr1 (12 + 8) (chunk_at' 12) Hlh Hbo1 eq_refl
+                  ltac:(rewrite wlen_chunk_at; fold h1; lia) Hv) as (a2 & p2 & X & Hl2 & Hd).
+      exists a2, p2, (e1 + pad_of h1), r. split; [exact X|]. split; [eapply done_ready; eauto|].
+      split; [exact Ht1|]. split; [exact Hseq | lia].
+    - rewrite extended_ok_alt in Hseq. rewrite wlen_chunk_at in Hseq. fold h1 in Hseq. cbn [w_off chunk_at] in Hseq.
+      apply andb_prop in Hseq. destruct Hseq as [Hseq Hext]. apply andb_prop in Hseq. destruct Hseq as [H10 Hcond].
+      cbv zeta in Hext.
+      destruct (has_flags_testbit (le inp (12 + 8) 1)) as (T5 & T4 & T3 & T2 & T1).
+      rewrite <- T5, <- T4, <- T3, <- T2, <- T1 in Hext.
+      match type of Hext with match ?Y with _ => _ end = _ => destruct Y as [cs4|] eqn:Eseq; [|discriminate] end.
+      assert (Ee1 : e1 = 12 + 8 + 10) by lia.
+      destruct (body_ok_fits h1 e1 fr1 e1 Hbo1 ltac:(lia)) as [Hfe1 Hie1].
+      rewrite exec_bind, (read_data_go 10 h1 e1 fr1 (12 + 8) ltac:(lia) Hlh); try lia.
+      2:{ rewrite <- Ee1. exact Hfe1. }
+      cbn [ebind]. change (N.to_nat 10) with 10%nat.
+      rewrite exec_bind, exec_lift, parse_vp8x_spec, Hcond. cbn [ebind]. rewrite <- Ee1.
+      assert (Hrx : ready (AIn h1 e1) fr1 e1 (e1 + pad_of h1) e).
+      { apply (done_ready h1 e1 (AIn h1 e1) e1 fr1 e); auto; [left; auto | split; [exact Hfe1 | cbn [ainv]; lia]]. }
+      destruct (extended_complete fuel (vp8x_at inp (12 + 8)) _ fr1 e1 _ e r cs4 Hrx Ht1 Eseq) as (a2 & p2 & o2 & X & Hr2 & Ht2).
+      { eapply fuel_weaken; [exact Hfu0 | lia | lia]. }
+      { exact Hm1. }
+      exists a2, p2, o2, cs4. split; [exact X|]. split; [exact Hr2|]. split; [exact Ht2|]. split; [exact Hext|].
+      destruct Hr2 as [_ _ _ _ _ _ _]. admit. }
+  destruct K as (a2 & p2 & o2 & rest & X & Hr2 & Ht2 & Hok & Ho2). rewrite exec_bind, X. cbn [ebind].
+  destruct (file_tail_complete fuel a2 fr1 p2 o2 e rest Hr2 Ht2 Hok) as (n & X3); [|exact Hm1|].
+  { eapply fuel_weaken; [exact Hfu0 | lia | lia]. }
+  rewrite exec_bind, X3. cbn [ebind]. rewrite exec_bind, exec_lift. unfold fr1. rewrite parent_L. cbn [ebind].
+  assert (Hl3 : linv' (AIn h e) [] e) by (split; [apply fits_nil | cbn [ainv]; lia]).
+  rewrite exec_bind, (has_remaining_go (AIn h e) [] e Hl3 (body_ok_padreq h e [] Hbo0)).
+  cbn [nst npos]. replace (e <=? e) with true by lia. cbn [ebind].
+  unfold more. cbn [fitsb forallb andb]. replace (e + pad_of h <? ilen inp) with false by lia.
+  rewrite exec_bind, exec_pos. cbn [ebind]. rewrite exec_bind, exec_len. cbn [ebind].
+  replace (ilen inp <? e + pad_of h) with false by lia. rewrite exec_ret. eauto.
+Admitted.
+
 End C.
